@@ -109,6 +109,18 @@ func buildDirs(root, repo string) []dirSpec {
 		{Kind: "Deployment", NS: "ns1", Name: "w2", Labels: map[string]string{"app": "b"}, Ports: []wm.CPort{{Name: "dns", Num: 53}}, Replicas: 1}},
 		NPs: []wm.NP{{NS: "ns1", Name: "named", PodSel: wm.Sel{}, Types: []string{"Ingress"},
 			Ingress: []wm.NPRule{{Peers: []wm.NPPeer{{Pod: all}}, Ports: []wm.NPPort{{HasPort: true, Name: "dns"}, {HasPort: true, Name: "http", Proto: "UDP"}, {HasPort: true, Name: "nosuch", Proto: "SCTP"}}}}}}}, 1, "w1")
+	// workloads scaled to zero (replicas: 0, parallelism: 0)
+	{
+		p := filepath.Join(root, "zero-replicas")
+		os.MkdirAll(p, 0o755)
+		var docs []string
+		docs = append(docs, wm.InfoYAML((&wm.World{NSs: nss, NPs: []wm.NP{np}}).Infos())...)
+		docs = append(docs, wm.InfoYAML(wm.Express(wls[0], "Deployment", 0))...)
+		docs = append(docs, wm.InfoYAML(wm.Express(wls[1], "Job", 0))...)
+		docs = append(docs, wm.InfoYAML(wm.Express(wls[2], "StatefulSet", 1))...)
+		os.WriteFile(filepath.Join(p, "all.yaml"), []byte(strings.Join(docs, "---\n")), 0o644)
+		dirs = append(dirs, dirSpec{name: "zero-replicas", path: p, focus: "w1"})
+	}
 	// many resources (more than any size-derived default in the code base: 120 objects, 40 workloads)
 	big := &wm.World{NSs: nss}
 	for i := 0; i < 40; i++ {
